@@ -238,6 +238,21 @@ def c12(ctx):
     ctx.exhaustive = False
 
 
+def c15(ctx):
+    ctx.rule = ("pipe: all ordered pairs (A, B) of 48 expressions (paths, multi-selects, five projection kinds, slices, 12 function calls, "
+                "logical operators, two erroring expressions) x 46 documents: Search('A | B', d) vs Search(B, Search(A, d)); subst: every A "
+                "plugged into 24 contexts whose hole is evaluated against the root document (operator sides, multi-select members, function "
+                "arguments, left sides of pipe / sub-expression / index / the projection kinds) and their depth-2 compositions: Search(C[A], d) "
+                "vs Search(C[`v`], d) with v the value of A; both sides real, each also checked against the specification's outcome set; "
+                "non-trivial: the allowed set is not {ok null} on some document; distinct by source text")
+    strides = {Q: (1, 37), T: (1, 3)}[ctx.tier]
+    c = {"Dev": "{}", "Tier": ctx.tier, "Family": "C15", "NBlocks": 64, "Stride": strides[0], "Stride3": strides[1], "Seed": ctx.seed}
+    C.model_check(ctx, "MC_Eval", c, invariants=["Holds"], spec="Spec", name="MC_Eval_C15", extra_cfg=["VIEW View"], workers=C.NCPU, timeout=3000)
+    files = C.generate(ctx, "Gen_Meta", "C15", {"Stride3": strides[1]}, 8 if ctx.tier == Q else 16, stride=strides[0], timeout=3000)
+    C.run_tool(ctx, "meta", files, {"meta-outcome", "meta-law"}, canary_every=4999)
+    ctx.exhaustive = False
+
+
 def c13(ctx):
     ctx.rule = ("histories: every sequence of 1..4 (quick; thorough 1..5) Search calls of one compiled expression over 5 documents, for 7 "
                 "expressions (sort_by on a literal and on the document, failing searches, object wildcard), each call compared with the "
@@ -256,6 +271,40 @@ def c13(ctx):
     eval_family(ctx, "C09n", {Q: (2, 1), T: (1, 1)}, cats=("outcome", "panic", "oneshot"), mc=False, oneshot=True)
     eval_family(ctx, "C02", {Q: (29, 1), T: (3, 1)}, cats=("outcome", "panic", "oneshot"), mc=False, oneshot=True)
     ctx.exhaustive = True
+
+
+PANIC_CATS = ("panic", "compile-panic", "timeout", "compile-timeout")
+
+
+def c05(ctx):
+    import os
+    ctx.rule = ("bounded: every string up to 3 (quick) / 4 (thorough) characters over the 32-class alphabet, every string up to 2 over ASCII + "
+                "boundary runes + raw invalid bytes, fine characters in identifier context, token strings up to length 4 and near-miss mutants, "
+                "the full function/arity/type matrix, slices and indices with extreme integers -- each compiled and searched under recover() "
+                "and a watchdog; amplification: 21 nestable / chainable productions repeated 10, 1000 and up to 64 KiB times within a time "
+                "budget linear in the size (and a gross memory bound); fuzz: seeded random byte strings, hostile-token strings and mutations "
+                "of the fuzz corpus and compliance expressions; non-trivial: every distinct input (the property is about all inputs); "
+                "coverage-guided mutation is NOT done (needs a fuzzer, see DESIGN.md section 10)")
+    quick = ctx.tier == Q
+    mc_lex(ctx, 3 if quick else 4, invs=["NoPanic", "OffsetOK", "Pipeline"])
+    mc_lex(ctx, 2, alpha="fine", invs=["NoPanic", "OffsetOK", "Pipeline"])
+    mc_lex(ctx, 3, dev='{"UnguardedIdentTable"}', invs=["NoPanic"], negative=True, name="MC_Lex_neg_UnguardedIdentTable")
+    mc_parse(ctx, 4 if quick else 5)
+    gen_text(ctx, "coarse", 3 if quick else 4, 1, cats=PANIC_CATS, contract=False)
+    gen_text(ctx, "fine", 2, 1, cats=PANIC_CATS, contract=False)
+    gen_text(ctx, "ident", 0, 1, cats=PANIC_CATS, contract=False)
+    gen_parse(ctx, "strings", "C01", 4, (16, 1) if quick else (1, 1), cats=PANIC_CATS)
+    gen_parse(ctx, "mutants", "C02", 0, (300, 1) if quick else (13, 1), cats=PANIC_CATS)
+    eval_family(ctx, "C10", {Q: (3, 1), T: (1, 1)}, cats=PANIC_CATS, mc=False)
+    eval_family(ctx, "C08", {Q: (7, 1), T: (1, 1)}, cats=PANIC_CATS, mc=False)
+    eval_family(ctx, "C08i", {Q: (1, 1), T: (1, 1)}, cats=PANIC_CATS, mc=False)
+    eval_family(ctx, "C09", {Q: (17, 1), T: (3, 1)}, cats=PANIC_CATS, mc=False)
+    amp = os.path.join(ctx.scratch, "amp.ndjson")
+    C.run_tlc(ctx, "Gen_Amp", {"Dev": "{}", "OutFile": amp}, ["INIT Init", "NEXT Next"], name="Gen_Amp", timeout=600)
+    s = C.run_tool(ctx, "stress", [], {"panic", "timeout", "memory", "amp-small"},
+                   extra=["-amp", amp, "-fuzz", str(20000 if quick else 400000), "-seed", str(ctx.seed), "-repo", C.REPO])
+    ctx.bounds["stress"] = {"max_millis_per_64KiB": s.get("max_millis_per_64KiB"), "max_alloc_mb": s.get("max_alloc_mb")}
+    ctx.exhaustive = False
 
 
 def c06(ctx):
@@ -340,5 +389,5 @@ def c16(ctx):
 
 
 PIPELINES = {
-    "C01": c01, "C02": c02, "C03": c03, "C04": c04, "C06": c06, "C12": c12, "C13": c13, "C14": c14, "C17": c17, "C07": c07, "C08": c08, "C09": c09, "C10": c10, "C11": c11, "C16": c16,
+    "C01": c01, "C02": c02, "C03": c03, "C04": c04, "C05": c05, "C06": c06, "C12": c12, "C13": c13, "C15": c15, "C14": c14, "C17": c17, "C07": c07, "C08": c08, "C09": c09, "C10": c10, "C11": c11, "C16": c16,
 }
